@@ -15,9 +15,9 @@ def scenario(v, wd, name, kinds, thorough, out):
     bg = w.background_ok()
     tid = [0]
 
-    def probe(k, phase, timeout=4.0, patient=True):
+    def probe(k, phase, timeout=4.0, patient=True, dest=None):
         before = len(w.p1.trace()) if k == "quic" else 0
-        o = w.probe(k, phase, timeout=timeout)
+        o = w.probe(k, phase, timeout=timeout, dest=dest)
         if o != "ok" and patient and phase in ("warm", "recovered", "recovered-2", "continued"):
             # where the model demands success a slow answer on a busy machine must not count as an outage:
             # the failed attempt is replaced by one patient attempt ("a small bounded number of attempts")
@@ -105,6 +105,14 @@ def scenario(v, wd, name, kinds, thorough, out):
             for _ in range(3):
                 probe(k, "recovered")
             ts = [t for t in [topen(k)] if t]
+            # a destination that refuses (the upstream itself is fine): that request fails, nothing else is touched -
+            # in particular not the other tunnels multiplexed on a shared upstream connection
+            if k != "direct":
+                probe(k, "refused-dest", dest="closed")
+                probe(k, "refused-dest", dest="closed")
+                for t in ts:
+                    tcheck(t, k, 0.6)
+                probe(k, "recovered")
             # ---- outage 2: the upstream stalls (accepts, never answers), continues ----
             if k != "direct":
                 w.down(k, "stall")
